@@ -360,13 +360,13 @@ impl Change {
             } else {
                 old_value.version
             };
-            source_version + 1
+            source_version.saturating_add(1)
         } else if old_value.is_in_conflict_resolution() {
             old_value.version
         } else if self.version == -1 {
-            old_value.version + 1
+            old_value.version.saturating_add(1)
         } else {
-            self.version + 1
+            self.version.saturating_add(1)
         }
     }
 }
@@ -697,7 +697,7 @@ impl Database {
                             self.set_value_version(
                                 &key,
                                 &String::from("<Empty>"),
-                                value.version + 1,
+                                value.version.saturating_add(1),
                                 ValueStatus::Deleted,
                                 value.value_disk_addr,
                                 value.key_disk_addr,
@@ -881,7 +881,7 @@ impl Database {
                 );
                 new_version
             } else {
-                let new_version = change.version + 1;
+                let new_version = change.version.saturating_add(1);
                 //new key, not in disk yet
                 db.insert(
                     change.key.clone(),
